@@ -89,7 +89,11 @@ for d in sorted(glob.glob("/tmp/seed-out/C*C*/C*-?") + glob.glob("/tmp/seed-out/
 with open(os.path.join(V, "seeded", "INDEX.md"), "w") as f:
     f.write("# Seeded breaking changes and which check catches them\n\n"
             "Each change compiles, passes the 19-test suite and fails its own demonstration only with the change applied "
-            "(confirmed by `tools/seed_confirm.sh`). `caught` = the property's quick check exits 1 with the keys listed.\n\n"
+            "(confirmed by `tools/seed_confirm.sh` / `tools/seed_par.sh`). `caught` = the property's quick check exits 1 with the "
+            "keys listed (ids ending in a/b: round 1, run by applying the change to /repo and restoring it; c/d/e: round 2, "
+            "run in a scratch worktree with private build and output directories, seeds 12648430, 1, 2 until one fires). "
+            "Where the check of the property a change was written for does not catch it, the check that does is named; "
+            "`meta.json` of each change has the details (`other_checks_that_catch_it` lists cross-property runs).\n\n"
             "| id | what it breaks | needs | caught by quick check | violation keys (first) | note |\n|---|---|---|---|---|---|\n")
     for o in rows:
         f.write("| %s | %s | %s | %s | %s | %s |\n" % (
